@@ -1093,6 +1093,7 @@ class Grid(object):
         size = self._round_size(size)
         if align_corners:
             spacing = (self.extent() - self.spacing()) / (size - 1)
+            spacing = torch.where(size.gt(1), spacing, self._spacing)  # single point along axis: keep spacing
             grid._spacing = torch.where(self._size.gt(0), spacing, self._spacing)
             # origin = center - offset is subject to cancellation: tolerance relative to the grid's magnitude
             atol = 1e-5 * (self._center.abs().max() + self.extent().max()).item()
